@@ -374,7 +374,12 @@ impl Run {
             path.push_str(&format!("?{}={}", pct(&nasty(a)), pct(&nasty(b))));
         }
         let ty = r.body_type.as_deref();
+        // A route that takes no body refuses a request that has one before it looks at the path
+        // (`request.empty()`): three times in four such a route is sent no body, so that the
+        // mutated path segments and queries get behind that check.
+        let bodyless = r.body == "none" && inp.content_type % 4 != 0;
         let (body, json_like): (Option<Vec<u8>>, bool) = match (&inp.body, r.body.as_str()) {
+            _ if bodyless => (None, false),
             (Body::Absent, _) => (None, false),
             (Body::Valid, "none") => (None, false),
             (Body::Valid, "bytes") => (Some(b"x".to_vec()), false),
